@@ -5,3 +5,5 @@ INVARIANT ParserValueErrorRejected
 INVARIANT CdefNeverInvalidType
 INVARIANT CompiledNoCffiErrors
 CHECK_DEADLOCK FALSE
+INVARIANT OverLimitOnlyError
+INVARIANT AtLimitFree
